@@ -220,7 +220,8 @@ class State:
         self.heap.on_new_array = self._initial_heap_axiom
 
     def _initial_heap_axiom(self, key, arr):
-        """every reference stored in the initial heap points to an object that already exists"""
+        """every reference stored in an object of the initial heap points to an object that already exists; slots of
+        not yet allocated references are unconstrained (a callee may hand back a new object holding new objects)"""
         name = str(arr)
         if name in self._h0_seen:
             return
@@ -232,16 +233,16 @@ class State:
         if key == 'list':
             k = z3.Int('h0_k')
             e = z3.Select(arr, r)[k]
-            self.axioms.append(z3.ForAll([r, k], z3.Implies(z3.And(k >= 0, k < z3.Length(z3.Select(arr, r)), Val.is_o(e)),
+            self.axioms.append(z3.ForAll([r, k], z3.Implies(z3.And(r < a0, k >= 0, k < z3.Length(z3.Select(arr, r)), Val.is_o(e)),
                                                             z3.And(Val.ref(e) < a0, Val.ref(e) >= 0)), patterns=[e]))
         elif key == 'dmap':
             kk = z3.Const('h0_key', Val)
             e = z3.Select(z3.Select(arr, r), kk)
-            self.axioms.append(z3.ForAll([r, kk], z3.Implies(Val.is_o(e), z3.And(Val.ref(e) < a0, Val.ref(e) >= 0)),
+            self.axioms.append(z3.ForAll([r, kk], z3.Implies(z3.And(r < a0, Val.is_o(e)), z3.And(Val.ref(e) < a0, Val.ref(e) >= 0)),
                                          patterns=[e]))
         else:
             e = z3.Select(arr, r)
-            self.axioms.append(z3.ForAll([r], z3.Implies(Val.is_o(e), z3.And(Val.ref(e) < a0, Val.ref(e) >= 0)),
+            self.axioms.append(z3.ForAll([r], z3.Implies(z3.And(r < a0, Val.is_o(e)), z3.And(Val.ref(e) < a0, Val.ref(e) >= 0)),
                                          patterns=[e]))
 
     # -- naming ------------------------------------------------------------
